@@ -13,6 +13,7 @@ import (
 	"time"
 
 	"github.com/bluenviron/gohlslib/v2"
+	"github.com/bluenviron/gohlslib/v2/pkg/codecs"
 	"github.com/bluenviron/mediacommon/v2/pkg/codecs/h264"
 	"github.com/bluenviron/mediacommon/v2/pkg/codecs/mpeg4audio"
 	"github.com/bluenviron/mediacommon/v2/pkg/formats/fmp4"
@@ -29,11 +30,11 @@ var testSPS = []byte{
 
 var testAudioConfig = mpeg4audio.AudioSpecificConfig{Type: 2, SampleRate: 44100, ChannelCount: 2}
 
-const tick = 1800 // 20 ms at 90 kHz
+const tick = 1800 // 20 ms at 90 kHz: the default media time per media request
 
 // ---- tiny valid media; the k-th media request of a stream carries DTS k*20ms ----
 
-func tsSegment(audio bool, k int) []byte {
+func tsSegment(audio bool, k int, tick int) []byte {
 	var buf bytes.Buffer
 	if audio {
 		tr := &mpegts.Track{Codec: &mpegts.CodecMPEG4Audio{Config: testAudioConfig}}
@@ -79,9 +80,9 @@ func fmp4Init(audio bool) []byte {
 		Codec: &fmp4.CodecH264{SPS: testSPS, PPS: []byte{0x08}}}}})
 }
 
-func fmp4Part(audio bool, k int) []byte {
+func fmp4Part(audio bool, k int, tick int) []byte {
 	if audio {
-		return mp4Bytes(&fmp4.Part{Tracks: []*fmp4.PartTrack{{ID: 1, BaseTime: uint64(k * 882),
+		return mp4Bytes(&fmp4.Part{Tracks: []*fmp4.PartTrack{{ID: 1, BaseTime: uint64(k * tick * 441 / 900),
 			Samples: []*fmp4.PartSample{{Duration: 882, Payload: []byte{1, 2, 3, 4}}}}}})
 	}
 	avcc, err := h264.AVCC([][]byte{{5, byte(k)}}).Marshal()
@@ -89,7 +90,7 @@ func fmp4Part(audio bool, k int) []byte {
 		panic(err)
 	}
 	return mp4Bytes(&fmp4.Part{Tracks: []*fmp4.PartTrack{{ID: 1, BaseTime: uint64(k * tick),
-		Samples: []*fmp4.PartSample{{Duration: tick, Payload: avcc}}}}})
+		Samples: []*fmp4.PartSample{{Duration: uint32(tick), Payload: avcc}}}}})
 }
 
 // ---- the stub server: an in-process http.RoundTripper ----
@@ -105,6 +106,7 @@ type stub struct {
 	medias []int   // per stream: number of media requests served
 	logs   [][]Req // per stream: ordered requests
 	kinds  map[string]string
+	deliv  []int    // video units handed to the application, in order (their tags)
 	stray  []string // requests the stub could not attribute
 	master_hits int
 }
@@ -131,6 +133,25 @@ func newStub(c Case) *stub {
 		s.master = b.String()
 	}
 	return s
+}
+
+func (s *stub) pace() int {
+	if s.c.Pace > 0 {
+		return s.c.Pace
+	}
+	return tick
+}
+
+// delivered is called from the client's OnDataH26x callback of the video track: every media
+// object of stream 0 carries one IDR unit {5, k}, k = its position among stream 0's media requests
+func (s *stub) onVideo(au [][]byte) {
+	s.mu.Lock()
+	for _, nalu := range au {
+		if len(nalu) == 2 && nalu[0] == 5 {
+			s.deliv = append(s.deliv, int(nalu[1]))
+		}
+	}
+	s.mu.Unlock()
 }
 
 // setKind is called from the client's OnDownload* callbacks, which run immediately before the request
@@ -205,9 +226,9 @@ func (s *stub) RoundTrip(req *http.Request) (*http.Response, error) {
 		k := s.medias[i]
 		s.medias[i]++
 		if s.c.Format == "fmp4" {
-			body = fmp4Part(audio, k)
+			body = fmp4Part(audio, k, s.pace())
 		} else {
-			body = tsSegment(audio, k)
+			body = tsSegment(audio, k, s.pace())
 		}
 	}
 	s.mu.Unlock()
@@ -219,7 +240,11 @@ type runResult struct {
 	Final   string   `json:"final"`
 	Stray   []string `json:"stray,omitempty"`
 	PURLs   []string `json:"purls"`
-	Elapsed int64    `json:"-"`
+	// Delivered = tags of the video units handed to OnData before Wait returned; Media0 = number of
+	// media (segment / part) requests of stream 0, whose k-th answer carries the unit tagged k
+	Delivered []int `json:"delivered"`
+	Media0    int   `json:"media0"`
+	Elapsed   int64 `json:"-"`
 	Err     string   `json:"err,omitempty"`
 }
 
@@ -264,6 +289,14 @@ func runCase(c Case) runResult {
 		OnDownloadPart:            func(u string) { st.setKind(u, "part") },
 		OnDecodeError:             func(error) {},
 	}
+	cl.OnTracks = func(tracks []*gohlslib.Track) error {
+		for _, tr := range tracks {
+			if _, ok := tr.Codec.(*codecs.H264); ok {
+				cl.OnDataH26x(tr, func(_ int64, _ int64, au [][]byte) { st.onVideo(au) })
+			}
+		}
+		return nil
+	}
 	t0 := time.Now()
 	if err := cl.Start(); err != nil {
 		return runResult{Err: "Start: " + err.Error()}
@@ -284,5 +317,5 @@ func runCase(c Case) runResult {
 		logs[i] = append([]Req{}, st.logs[i]...)
 	}
 	return runResult{Logs: logs, Final: classify(werr), Stray: st.stray, PURLs: purls,
-		Elapsed: int64(time.Since(t0))}
+		Delivered: append([]int{}, st.deliv...), Media0: st.medias[0], Elapsed: int64(time.Since(t0))}
 }
